@@ -305,6 +305,18 @@ func (w *world) query(n *vnode.Node, t []string) string {
 		q = fmt.Sprintf(`query { %s { _docID _count(%s: {}) _sum(%s: {field: x}) } }`, r.parent, r.kids, r.kids)
 	case "aggf":
 		q = fmt.Sprintf(`query { %s { _docID _count(%s: {filter: {x: {_gt: %s}}}) } }`, r.parent, r.kids, arg)
+	case "kidsor": // alternatives on one field, in the filter of the related list
+		ab := strings.Split(arg, ",")
+		q = fmt.Sprintf(`query { %s { _docID %s(filter: {_or: [{x: {_eq: %s}}, {x: {_eq: %s}}]}) { _docID } } }`, r.parent, r.kids, ab[0], ab[1])
+	case "kidsor2": // an alternative that is a conjunction of two fields
+		ab := strings.Split(arg, ",")
+		q = fmt.Sprintf(`query { %s { _docID %s(filter: {_or: [{x: {_eq: %s}, name: {_eq: "%s"}}]}) { _docID } } }`, r.parent, r.kids, ab[0], ab[1])
+	case "pfilteror": // alternatives nested under the relation field, from the parent side
+		ab := strings.Split(arg, ",")
+		q = fmt.Sprintf(`query { %s(filter: {%s: {_or: [{x: {_eq: %s}}, {x: {_eq: %s}}]}}) { _docID } }`, r.parent, r.kids, ab[0], ab[1])
+	case "cfilteror": // … and from the child side
+		ab := strings.Split(arg, ",")
+		q, root = fmt.Sprintf(`query { %s(filter: {%s: {_or: [{x: {_eq: %s}}, {x: {_eq: %s}}]}}) { _docID } }`, r.child, r.fk, ab[0], ab[1]), r.child
 	case "kidsaggf": // a filtered list of related documents next to an aggregate over a narrower filter
 		ab := strings.Split(arg, ",")
 		q = fmt.Sprintf(`query { %s { _docID %s(filter: {x: {_gt: %s}}) { _docID } _count(%s: {filter: {x: {_gt: %s, _lt: %s}}}) } }`, r.parent, r.kids, ab[0], r.kids, ab[0], ab[1])
@@ -364,7 +376,7 @@ func (w *world) query(n *vnode.Node, t []string) string {
 		d := row.(map[string]any)
 		l := w.lab(d["_docID"])
 		switch kind {
-		case "kids", "pfilterkids", "pfiltername":
+		case "kids", "pfilterkids", "pfiltername", "kidsor", "kidsor2":
 			items = append(items, l+":"+kidList(d[r.kids], "_docID"))
 		case "psorted":
 			items = append(items, num(d["x"])+"/"+l+":"+kidList(d[r.kids], "_docID"))
@@ -374,7 +386,7 @@ func (w *world) query(n *vnode.Node, t []string) string {
 				p = w.lab(pm["_docID"])
 			}
 			items = append(items, l+":"+p)
-		case "byfk", "pfilter", "cfilter", "hop2filter":
+		case "byfk", "pfilter", "cfilter", "hop2filter", "pfilteror", "cfilteror":
 			items = append(items, l)
 		case "agg":
 			items = append(items, fmt.Sprintf("%s:count=%s,sum=%s", l, num(d["_count"]), num(d["_sum"])))
@@ -494,6 +506,81 @@ func (w *world) q(t []string) string {
 					w.out.Oracle(w.out.Lines, fmt.Sprintf("[relation-sides-disagree] case %d (%s): request %s counts %s related documents of %s from the parent side, the child side counts %s", w.caseID, w.tp.name, strings.Join(t[1:], " "), got, parts[0], want))
 				}
 			}
+		}
+	}
+	if (t[1] == "kidsor" || t[1] == "pfilteror" || t[1] == "cfilteror") && !strings.HasPrefix(b, "panic") && b != "hang" && !strings.HasPrefix(b, "error") {
+		// the same question asked from the other side of the relation (top-level filter, no nesting)
+		ri, _ := strconv.Atoi(t[2])
+		r := w.tp.rels[ri]
+		ab := strings.Split(t[3], ",")
+		alt := fmt.Sprintf(`_or: [{x: {_eq: %s}}, {x: {_eq: %s}}]`, ab[0], ab[1])
+		labelsOf := func(res, root string, pick func(map[string]any) []string) []string {
+			var m map[string][]map[string]any
+			var out []string
+			if json.Unmarshal([]byte(res), &m) == nil {
+				for _, d := range m[root] {
+					out = append(out, pick(d)...)
+				}
+			}
+			sort.Strings(out)
+			return out
+		}
+		var got, want []string
+		switch t[1] {
+		case "kidsor":
+			// parent side: every (parent, kid) pair listed; child side: the children passing the alternatives, with
+			// the parent their own relation field points to
+			for _, item := range strings.Fields(b) {
+				parts := strings.SplitN(item, ":", 2)
+				for _, k := range strings.Split(strings.Trim(parts[1], "[]"), ",") {
+					if k != "" {
+						got = append(got, parts[0]+">"+k)
+					}
+				}
+			}
+			sort.Strings(got)
+			res := gqlT(w.ctx, w.nodes[1], fmt.Sprintf(`query { %s(filter: {%s}) { _docID %s { _docID } } }`, r.child, alt, r.fk))
+			want = labelsOf(res, r.child, func(d map[string]any) []string {
+				if pm, ok := d[r.fk].(map[string]any); ok && pm != nil {
+					return []string{w.lab(pm["_docID"]) + ">" + w.lab(d["_docID"])}
+				}
+				return nil
+			})
+		case "pfilteror":
+			got = strings.Fields(b)
+			res := gqlT(w.ctx, w.nodes[1], fmt.Sprintf(`query { %s(filter: {%s}) { %s { _docID } } }`, r.child, alt, r.fk))
+			seen := map[string]bool{}
+			want = labelsOf(res, r.child, func(d map[string]any) []string {
+				if pm, ok := d[r.fk].(map[string]any); ok && pm != nil {
+					l := w.lab(pm["_docID"])
+					if !seen[l] {
+						seen[l] = true
+						return []string{l}
+					}
+				}
+				return nil
+			})
+		case "cfilteror":
+			got = strings.Fields(b)
+			res := gqlT(w.ctx, w.nodes[1], fmt.Sprintf(`query { %s(filter: {%s}) { %s { _docID } } }`, r.parent, alt, r.kids))
+			want = labelsOf(res, r.parent, func(d map[string]any) []string {
+				var out []string
+				switch ks := d[r.kids].(type) {
+				case []any:
+					for _, k := range ks {
+						out = append(out, w.lab(k.(map[string]any)["_docID"]))
+					}
+				case map[string]any:
+					if ks != nil {
+						out = append(out, w.lab(ks["_docID"]))
+					}
+				}
+				return out
+			})
+		}
+		sort.Strings(got)
+		if strings.Join(got, " ") != strings.Join(want, " ") {
+			w.out.Oracle(w.out.Lines, fmt.Sprintf("[relation-sides-disagree] case %d (%s): request %s answers %v, the same question from the other side of the relation answers %v", w.caseID, w.tp.name, strings.Join(t[1:], " "), got, want))
 		}
 	}
 	if t[1] == "corder" {
@@ -694,6 +781,11 @@ func genCase(r *vc.Rng, id uint64) []string {
 				lines = append(lines, "q aggf "+p+" "+vs)
 				hi := strconv.Itoa(v + 1 + r.Intn(3))
 				lines = append(lines, "q kidsaggf "+p+" "+vs+","+hi, "q agg2f "+p+" "+vs+","+hi)
+				lines = append(lines, "q kidsor "+p+" "+vs+","+hi, "q kidsor2 "+p+" "+vs+","+names[r.Intn(len(names))])
+			}
+			{
+				hi := strconv.Itoa(v + 1 + r.Intn(3))
+				lines = append(lines, "q pfilteror "+p+" "+vs+","+hi, "q cfilteror "+p+" "+vs+","+hi)
 			}
 		}
 		for _, nm := range names {
